@@ -204,8 +204,8 @@ func (cs *ContractSet) parseFile(path, pkg string) error {
 			fs := strings.Fields(rest)
 			if len(fs) == 3 && fs[0] == "var" {
 				cs.Ghosts[fs[1]] = &GhostVar{Name: fs[1], Type: fs[2], Pkg: pkg}
-			} else if len(fs) == 4 && fs[0] == "map" {
-				cs.Ghosts[fs[1]] = &GhostVar{Name: fs[1], Type: "map:" + fs[2] + ":" + fs[3], Pkg: pkg}
+			} else if len(fs) >= 4 && fs[0] == "map" {
+				cs.Ghosts[fs[1]] = &GhostVar{Name: fs[1], Type: "map:" + fs[2] + ":" + strings.Join(fs[3:], " "), Pkg: pkg}
 			} else {
 				return fail("bad ghost declaration")
 			}
